@@ -226,6 +226,10 @@ Lemma for_from_mask0 {R : Type} (tail : str) (raise : R)
 Proof. intros Hb mask j k. exact (for_from_mask tail raise body Hb mask j [] 0 k). Qed.
 End MaskLoop.
 
+(* rewrite with an equation about [zlim l] where the goal has the Python value *)
+Ltac rewrite_lim H :=
+  let E := fresh "E" in pose proof H as E; cbn [zlim option_map Z.of_nat] in E; rewrite E; clear E.
+
 (* finishing the comparison of one loop step of the generated code with the
    model's step: split the int / nat comparisons, then both sides are the same
    constructor applied to arithmetically equal values *)
@@ -309,7 +313,7 @@ Proof.
       rewrite slice_to_neg_len, slice_from_neg_len, len_cons_eq_1.
       unfold for_each.
       apply for_from_gloop with
-        (rel := fun st acc num l => exists j : Z, st = (acc, Z.of_nat num, zlim l, j)).
+        (rel := fun st acc num l => exists j : Z, st = (acc, j, Z.of_nat num, zlim l)).
       - intros m _ i st acc num l0 [j ->]. cbv beta iota.
         rewrite (for_from_mask0 upper_c (py_tail cur (length m0)) (Return (Exc LookupError))).
         2:{ intros j' c ne i'. cbv beta iota. rewrite str_eqb_char, str_index_nat.
@@ -360,4 +364,181 @@ Proof.
     { intros st acc num l0 ->. reflexivity. }
     reflexivity.
 Qed.
+
+(* ---- create_guesses, non-honeyword path ---- *)
+Theorem create_guesses_eq (pt : list pnode) (slots : list slot) (fuel : nat) (l : lim) :
+  resolve gv pt = Some slots -> length pt < fuel ->
+  py_create_guesses upper_c gv py_int mcr false honey fuel pt false (zlim l) =
+  lift (expand upper_c omen_of slots [] l).
+Proof.
+  intros Hres Hf. unfold py_create_guesses. cbn [negb].
+  rewrite (recursive_guesses_eq pt slots Hres fuel [] l Hf).
+  destruct (expand upper_c omen_of slots [] l) as [[out k]|]; reflexivity.
+Qed.
+
+(* ---- never out of fuel: len(pt) + 1 levels of recursion are enough ---- *)
+Corollary recursive_guesses_fuel_enough (pt : list pnode) (slots : list slot) (fuel : nat) (cur : str) (l : lim) :
+  resolve gv pt = Some slots -> length pt < fuel ->
+  py_recursive_guesses upper_c gv py_int mcr false fuel cur pt (zlim l) <> Exc OutOfFuel.
+Proof.
+  intros Hres Hf. rewrite (recursive_guesses_eq pt slots Hres fuel cur l Hf).
+  destruct (expand upper_c omen_of slots cur l) as [[out k]|]; discriminate.
+Qed.
+
+Corollary recursive_guesses_fuel_irrelevant (pt : list pnode) (slots : list slot) (f1 f2 : nat) (cur : str) (l : lim) :
+  resolve gv pt = Some slots -> length pt < f1 -> length pt < f2 ->
+  py_recursive_guesses upper_c gv py_int mcr false f1 cur pt (zlim l) =
+  py_recursive_guesses upper_c gv py_int mcr false f2 cur pt (zlim l).
+Proof.
+  intros Hres H1 H2.
+  now rewrite (recursive_guesses_eq pt slots Hres f1 cur l H1), (recursive_guesses_eq pt slots Hres f2 cur l H2).
+Qed.
+
+(* ------------------------------------------------------------------ *)
+(* the theorems of C04 / C09 / C17 restated for the translated source  *)
+(* ------------------------------------------------------------------ *)
+
+(* C04: a well-formed pre-terminal prints exactly the product, in order *)
+Theorem source_recursive_guesses_is_product (segs : list seg) (pt : list pnode) (cur : str) (fuel : nat) :
+  segs <> [] -> Forall seg_ok' segs ->
+  resolve gv pt = Some (flat_map slots_of segs) -> length pt < fuel ->
+  py_recursive_guesses upper_c gv py_int mcr false fuel cur pt None =
+  Ok (map (app cur) (denote upper_c segs), Z.of_nat (length (denote upper_c segs))).
+Proof.
+  intros Hne Hok Hres Hf.
+  rewrite_lim (recursive_guesses_eq pt _ Hres fuel cur None Hf).
+  now rewrite (C04_expand_is_product_cur upper_c omen_of segs cur Hne Hok).
+Qed.
+
+Theorem source_create_guesses_is_product (segs : list seg) (pt : list pnode) (fuel : nat) :
+  segs <> [] -> Forall seg_ok' segs ->
+  resolve gv pt = Some (flat_map slots_of segs) -> length pt < fuel ->
+  py_create_guesses upper_c gv py_int mcr false honey fuel pt false None =
+  Ok (denote upper_c segs, Z.of_nat (length (denote upper_c segs))).
+Proof.
+  intros Hne Hok Hres Hf.
+  rewrite_lim (create_guesses_eq pt _ fuel None Hres Hf).
+  now rewrite (C04_expand_is_product upper_c omen_of segs Hne Hok).
+Qed.
+
+(* C04 / C09 / C17: with limit = n >= 1 exactly the first n lines, and min(n, total) is returned *)
+Theorem source_create_guesses_limit (segs : list seg) (pt : list pnode) (fuel n : nat) :
+  segs <> [] -> Forall seg_ok' segs -> n >= 1 ->
+  resolve gv pt = Some (flat_map slots_of segs) -> length pt < fuel ->
+  py_create_guesses upper_c gv py_int mcr false honey fuel pt false (Some (Z.of_nat n)) =
+  Ok (firstn n (denote upper_c segs), Z.of_nat (Nat.min n (length (denote upper_c segs)))).
+Proof.
+  intros Hne Hok Hn Hres Hf.
+  rewrite_lim (create_guesses_eq pt _ fuel (Some n) Hres Hf).
+  rewrite (C04_limit upper_c omen_of segs [] n Hne Hok Hn). now rewrite map_app_nil.
+Qed.
+
+(* limit 0 and limit None are the same (`if limit:`), any resolvable parse tree *)
+Theorem source_create_guesses_limit_zero (pt : list pnode) (slots : list slot) (fuel : nat) :
+  resolve gv pt = Some slots -> length pt < fuel ->
+  py_create_guesses upper_c gv py_int mcr false honey fuel pt false (Some 0%Z) =
+  py_create_guesses upper_c gv py_int mcr false honey fuel pt false None.
+Proof.
+  intros Hres Hf.
+  rewrite_lim (create_guesses_eq pt slots fuel (Some 0) Hres Hf). rewrite_lim (create_guesses_eq pt slots fuel None Hres Hf).
+  now rewrite C04_limit_zero_is_none.
+Qed.
+
+(* the returned count is the number of printed lines, any resolvable parse tree, any limit >= 0 *)
+Theorem source_create_guesses_count (pt : list pnode) (slots : list slot) (fuel : nat) (l : lim) out k :
+  resolve gv pt = Some slots -> length pt < fuel ->
+  py_create_guesses upper_c gv py_int mcr false honey fuel pt false (zlim l) = Ok (out, k) ->
+  k = Z.of_nat (length out).
+Proof.
+  intros Hres Hf. rewrite (create_guesses_eq pt slots fuel l Hres Hf).
+  destruct (expand upper_c omen_of slots [] l) as [[o c]|] eqn:E; [|discriminate].
+  cbn [lift]. intros H. inversion H; subst. f_equal. eapply C04_count_is_lines. exact E.
+Qed.
+
+(* a Markov pre-terminal: the strings of the level named by the first value of the group *)
+Theorem source_create_guesses_markov (name : pstr) (idx : Z) (lv : pstr) (more : list pstr) (fuel : nat) (l : lim) :
+  gv (77%N :: name) idx = Some (lv :: more) -> 1 < fuel ->
+  py_create_guesses upper_c gv py_int mcr false honey fuel [(77%N :: name, idx)] false (zlim l) =
+  Ok (lim_take l (mcr (py_int lv)), Z.of_nat (length (lim_take l (mcr (py_int lv))))).
+Proof.
+  intros Hgv Hf.
+  rewrite (create_guesses_eq [(77%N :: name, idx)] [{| scat := CatM; svals := lv :: more |}] fuel l).
+  - reflexivity.
+  - cbn [resolve]. unfold resolve_node. cbn [fst snd cat_of N.eqb Pos.eqb]. now rewrite Hgv.
+  - exact Hf.
+Qed.
+
 End Eq.
+
+(* C09: inside a Markov level the generator loop stops after exactly n guesses *)
+Theorem source_omen_limit (gs : list str) (n : nat) : n >= 1 ->
+  py_omen_generate_guesses false gs (Some (Z.of_nat n)) =
+  Ok (firstn n gs, Z.of_nat (Nat.min n (length gs))).
+Proof.
+  intros Hn. rewrite_lim (omen_generate_guesses_eq gs (Some n)).
+  rewrite lim_take_pos by lia. now rewrite firstn_length.
+Qed.
+
+Theorem source_omen_unlimited (gs : list str) :
+  py_omen_generate_guesses false gs None = Ok (gs, Z.of_nat (length gs)) /\
+  py_omen_generate_guesses false gs (Some 0%Z) = Ok (gs, Z.of_nat (length gs)).
+Proof. split; [exact (omen_generate_guesses_eq gs None)|exact (omen_generate_guesses_eq gs (Some 0))]. Qed.
+
+(* ------------------------------------------------------------------ *)
+(* the hypotheses are satisfiable and the generated code runs:         *)
+(* the example of ExpandProofs as a parse tree over a small grammar    *)
+(* ------------------------------------------------------------------ *)
+(* D1 -> "1" | "2";  A2 -> "ab" | "cd";  C2 -> "LL" | "UL";  O1 -> "!" | "?" | "#";
+   M -> level "4";  A1 -> "a" *)
+Definition gv_ex (t : pstr) (i : Z) : option (list pstr) :=
+  if negb (Z.eqb i 0) then None
+  else if str_eqb t [68; 49]%N then Some [[49]; [50]]%N
+  else if str_eqb t [65; 50]%N then Some [[97; 98]; [99; 100]]%N
+  else if str_eqb t [67; 50]%N then Some [[76; 76]; [85; 76]]%N
+  else if str_eqb t [79; 49]%N then Some [[33]; [63]; [35]]%N
+  else if str_eqb t [77]%N then Some [[52]]%N
+  else if str_eqb t [65; 49]%N then Some [[97]]%N
+  else None.
+Definition pt_ex : list pnode :=
+  [([68; 49]%N, 0%Z); ([65; 50]%N, 0%Z); ([67; 50]%N, 0%Z); ([79; 49]%N, 0%Z)].
+Definition int_ex (s : pstr) : Z := match s with [c] => Z.of_N c - 48 | _ => 0 end.
+Definition mcr_ex (level : Z) : list pstr := if Z.eqb level 4 then [[97]; [98]; [99]]%N else [].
+Definition honey_ex (_ : pstr) (_ : list pnode) (_ : option Z) : res (list pstr * Z) := Exc LookupError.
+
+Example source_example_resolves : resolve gv_ex pt_ex = Some (flat_map slots_of segs_ex).
+Proof. vm_compute. reflexivity. Qed.
+
+Example source_example_wellformed : segs_ex <> [] /\ Forall seg_ok' segs_ex /\ length pt_ex < 5.
+Proof.
+  split; [discriminate|]. split; [|cbn; lia].
+  repeat constructor; try discriminate; cbn; try lia.
+  exists 2. repeat constructor; cbn; lia.
+Qed.
+
+Example source_example_product :
+  py_create_guesses up_ascii gv_ex int_ex mcr_ex false honey_ex 5 pt_ex false None =
+  Ok (denote up_ascii segs_ex, 24%Z).
+Proof. vm_compute. reflexivity. Qed.
+
+Example source_example_limit :
+  py_create_guesses up_ascii gv_ex int_ex mcr_ex false honey_ex 5 pt_ex false (Some 5%Z) =
+  Ok (firstn 5 (denote up_ascii segs_ex), 5%Z).
+Proof. vm_compute. reflexivity. Qed.
+
+Example source_example_markov :
+  py_create_guesses up_ascii gv_ex int_ex mcr_ex false honey_ex 2 [([77%N], 0%Z)] false (Some 2%Z) =
+  Ok ([[97]; [98]]%N, 2%Z).
+Proof. vm_compute. reflexivity. Qed.
+
+(* a mask longer than the guess built so far: IndexError; an unknown variable: KeyError *)
+Example source_example_index_error :
+  py_create_guesses up_ascii gv_ex int_ex mcr_ex false honey_ex 3 [([65; 49]%N, 0%Z); ([67; 50]%N, 0%Z)] false None =
+  Exc LookupError /\
+  py_create_guesses up_ascii gv_ex int_ex mcr_ex false honey_ex 3 [([88]%N, 0%Z)] false None = Exc LookupError.
+Proof. split; vm_compute; reflexivity. Qed.
+
+(* the fuel is what bounds the recursion: with less than len(pt) the generated function gives up
+   (len(pt) + 1 is the bound the theorems use; the last level does not recurse) *)
+Example source_example_out_of_fuel :
+  py_create_guesses up_ascii gv_ex int_ex mcr_ex false honey_ex 3 pt_ex false None = Exc OutOfFuel.
+Proof. vm_compute. reflexivity. Qed.
